@@ -25,7 +25,9 @@ META = dict(
                "the result equals the exact comparison of the physical quantities whenever the unit conversion incurs no "
                "rounding, and always for equal units; comparable units always yield an answer when all units of a quantity "
                "are pint-convertible (C21_total; the table fact is C20's table_convertible). Full exactness is refuted in "
-               "Lean by concrete witnesses (C21_exact_counterexample) and recorded as a known finding.",
+               "Lean by concrete witnesses (C21_exact_counterexample) and recorded as known findings, one per ordered "
+               "unit pair, emitted by the oracle only when the exact values differ by <= 1e-26 relative (28th digit); a "
+               "coarser wrong answer on the same pair is a violation.",
     level_note="Partial: exactness holds only under the explicit hypothesis that pint's Decimal conversion of the second "
                "operand is exact (C21_exact_partial); '%' vs 'mol%' raises on trees without "
                "fixes/C20-units-molpercent-and-simulate-conversion.diff (finding kept, not required to reproduce). "
@@ -236,6 +238,20 @@ def inexact_cause(ua: str, ub: str, va: str, vb: str) -> str:
     return "unexplained"
 
 
+ROUNDING_TOLERANCE = F(1, 10 ** 26)
+
+
+def within_rounding(ua: str, ub: str, x: F, y: F) -> bool:
+    """Is a wrong answer for `x ua` vs `y ub` explainable by 28-digit Decimal rounding in the conversion of b into a's
+    unit?  The exact values, expressed in a's unit, then differ by at most a few units in the 28th significant digit of
+    the largest quantity the conversion handles (operand, converted operand, offsets).  1e-26 leaves a factor ~30 over
+    the worst case of the four roundings involved and is far below any 'real' difference."""
+    (sa, oa), (sb, ob) = REF[ua], REF[ub]
+    yc = (y * sb + ob - oa) / sa
+    scale = max(abs(x), abs(yc), abs(y * sb / sa), abs(ob / sa), abs(oa / sa))
+    return abs(x - yc) <= ROUNDING_TOLERANCE * scale
+
+
 def judge(case: dict, out: dict[str, str], comparable) -> list[Failure]:
     """The property over the observed results of one (ua, ub, va, vb) case; `out`: operator -> T | F | err:…"""
     ua, ub, va, vb = case["ua"], case["ub"], case["va"], case["vb"]
@@ -271,8 +287,11 @@ def judge(case: dict, out: dict[str, str], comparable) -> list[Failure]:
         if wrong:
             if ua == ub:
                 key = "wrong-comparison-same-unit"
+            elif not within_rounding(ua, ub, x, y):
+                # the recorded findings are about the 28th significant digit; anything coarser is a different defect
+                key = f"wrong-comparison-different-units:{ub}->{ua}"
             else:
-                key = "inexact-comparison:" + inexact_cause(ua, ub, va, vb)
+                key = f"inexact-comparison:{inexact_cause(ua, ub, va, vb)}:{ub}->{ua}"
             fails.append(Failure(key, case, f"{va} {ua} vs {vb} {ub}: operators {wrong} answer "
                                             f"{[out[o] for o in wrong]}, exact comparison says otherwise"))
     return fails
